@@ -8,15 +8,15 @@ open Rx Rx.Gen.Take
 def absTake (g : TakeObserver) : St1 := .take g.count g.hits g.observer.isSome
 
 theorem tie_Take_next (g : TakeObserver) (v : Val) :
-    (TakeObserver.next g v).map (fun r => (absTake r.1, r.2)) = some (St1.onNext (absTake g) v) := by
+    (TakeObserver.next g v).map (fun r => (absTake r.1, r.2)) = some (Rs.lift (St1.onNext (absTake g) v)) := by
   rcases g with ⟨_ | _, _, _⟩ <;> rs_tie [TakeObserver.next, absTake, St1.onNext]
 
 theorem tie_Take_error (g : TakeObserver) (e : Err) :
-    (TakeObserver.error g e).map (fun r => r.2) = some (St1.onError' (absTake g) e).2 := by
+    (TakeObserver.error g e).map (fun r => r.2) = some ((St1.onError' (absTake g) e).2.map Rs.Ev.n) := by
   rcases g with ⟨_ | _, _, _⟩ <;> rs_tie [TakeObserver.error, absTake, St1.onError']
 
 theorem tie_Take_complete (g : TakeObserver) :
-    (TakeObserver.complete g).map (fun r => r.2) = some (St1.onComplete' (absTake g)).2 := by
+    (TakeObserver.complete g).map (fun r => r.2) = some ((St1.onComplete' (absTake g)).2.map Rs.Ev.n) := by
   rcases g with ⟨_ | _, _, _⟩ <;> rs_tie [TakeObserver.complete, absTake, St1.onComplete']
 
 
